@@ -42,7 +42,7 @@ func init() {
 				return 400_000
 			}, Run: c19Registers,
 				Rule: "register-level oracle: gradient value, stop registers, matrix registers, untouched other registers, selectors restored, errors before any write",
-				Min: map[string]int64{"accepted": 20000, "rejected_too_many": 5000, "rejected_csel_in_range": 2000, "on_encoder": 20000, "on_renderer": 20000, "prior_increments": 20000,
+				Min: map[string]int64{"accepted": 20000, "rejected_too_many": 5000, "rejected_csel_in_range": 2000, "on_encoder": 20000, "destination_used_before": 50000, "on_renderer": 20000, "prior_increments": 20000,
 					"stops_58": 200, "stops_256_to_314": 1000, "renderer_csel_unreduced": 1000}},
 			{Name: "geometry", N: func(t string) uint64 {
 				if t == "thorough" {
@@ -206,12 +206,23 @@ func c19Registers(c *run.Ctx, idx uint64) {
 	var ren render.Renderer
 	rz := &rec.Raster{}
 	pal := gen.Palette(r)
+	used := r.Bool() // the destination has a past (another graphic, selectors moved, possibly abandoned mid-path)
+	if used {
+		c.Count("destination_used_before", 1)
+	}
 	if onRenderer {
 		ren.SetRasterizer(rz, image.Rect(0, 0, 16, 16))
+		if used {
+			dirtyDestination(r, &ren, pal)
+			rz.ResetLog()
+		}
 		ren.Reset(ivg.DefaultViewBox, pal)
 		real = &ren
 		c.Count("on_renderer", 1)
 	} else {
+		if used {
+			dirtyDestination(r, &enc, pal)
+		}
 		enc.Reset(ivg.DefaultViewBox, pal)
 		real = &enc
 		c.Count("on_encoder", 1)
@@ -425,12 +436,22 @@ func c19Geometry(c *run.Ctx, idx uint64) {
 		var err error
 		usedVB := vb
 		ok := c.Guard("render", func() interface{} { return q.desc() }, func() {
+			used := idx%3 == 0 // every third case: destinations with a past
 			if via == 0 {
+				if used {
+					dirtyDestination(c.Rng(idx^0x5eed), &z, ivg.DefaultPalette)
+					rz.ResetLog()
+				}
 				z.Reset(vb, ivg.DefaultPalette)
 				err = prog(&z)
 				c.Count("direct", 1)
 			} else {
 				var e encode.Encoder
+				if used {
+					dirtyDestination(c.Rng(idx^0x5eed), &e, ivg.DefaultPalette)
+					dirtyDestination(c.Rng(idx^0x5eed), &z, ivg.DefaultPalette)
+					rz.ResetLog()
+				}
 				e.Reset(vb, ivg.DefaultPalette)
 				e.HighResolutionCoordinates = true
 				err = prog(&e)
